@@ -699,6 +699,15 @@ func (c *Ctx) reachableFrom(roots []*ssa.Function, useCG bool, skipGo bool) map[
 					}
 				}
 			}
+			// function values used as operands (func literals without captures, method expressions)
+			var ops [12]*ssa.Value
+			for _, op := range i.Operands(ops[:0]) {
+				if fv, ok := (*op).(*ssa.Function); ok && (fv.Synthetic == "" || useCG) {
+					if _, isGo := i.(*ssa.Go); !(isGo && skipGo) {
+						push(fv)
+					}
+				}
+			}
 			cc := asCall(i)
 			if cc == nil {
 				return
